@@ -99,6 +99,20 @@ static void stage_shapes(Run &R) {
         Bytes q; for (int i = 0; i < 4; i++) { if (i) q += '.'; q += i == pos ? std::to_string(v) : std::to_string(7 + i); }
         for (const Bytes &d : {"[" + q + "]", "[IPv6:::ffff:" + q + "]", "[IPv6:1:2:3:4:5:6:" + q + "]", "[0" + q + "]"}) if (!go(d)) return;
     }
+    // longest spellings: every combination of group widths {1,4} for IPv6-full (8 groups) and IPv6v4-full (6 groups + quad with 1- or
+    // 3-digit octets), tagged and untagged: literal lengths up to 46 / 52 octets must all be accepted
+    for (int mask = 0; mask < 256; mask++) {
+        Bytes a; for (int i = 0; i < 8; i++) { if (i) a += ':'; a += (mask >> i) & 1 ? "fedc" : "1"; }
+        if (!go("[IPv6:" + a + "]")) return; if ((mask & 15) == 0 && !go("[" + a + "]")) return;
+        if (mask < 64) for (const char *q : {"1.2.3.4", "255.255.255.255", "192.0.2.128", "100.20.3.255"}) {
+            Bytes b; for (int i = 0; i < 6; i++) { if (i) b += ':'; b += (mask >> i) & 1 ? "fedc" : "0"; }
+            if (!go("[IPv6:" + b + ":" + q + "]")) return; if ((mask & 7) == 7 && !go("[" + b + ":" + q + "]")) return;
+        }
+    }
+    for (int before = 0; before <= 4; before++) for (int after = 0; before + after <= 4; after++) for (const char *q : {"9.8.7.6", "255.255.255.255"}) {   // IPv6v4-comp, full-width groups
+        Bytes a; for (int i = 0; i < before; i++) { a += "abcd"; if (i + 1 < before) a += ':'; } a += "::"; for (int i = 0; i < after; i++) { a += "ef01:"; } a += q;
+        if (!go("[IPv6:" + a + "]")) return;
+    }
     // octets far beyond the range: values that wrap to <= 255 modulo 2^8, 2^16, 2^31, 2^32, 2^64 when accumulated in a
     // narrow or overflowing integer, long zero-padded and long all-nine runs
     static const char *BIG[] = {"256", "257", "511", "512", "65536", "65537", "65791", "2147483648", "2147483649", "4294967295", "4294967296", "4294967297", "4294967551", "4294967552",
